@@ -557,6 +557,83 @@ def lean_expr(e):
     raise TranslateError(k)
 
 
+def wf_certificate(rules):
+    """Well-formedness certificate for `peg_terminates` (computed here, *checked* in Lean by `wfG`):
+    the nullable rule set (least fixed point) and a rank per rule such that every rule reference on the
+    left edge of a rule body has a smaller rank.  With left recursion no such ranks exist; the ranks
+    emitted then fail the Lean check, which is the point."""
+    N = set()
+
+    def null(e):
+        k = e[0]
+        if k == 'lit':
+            return e[1] == ''
+        if k == 'class':
+            return False
+        if k == 'ref':
+            return e[1] in N
+        if k == 'seq':
+            return all(null(x) for _, x in e[1])
+        if k == 'choice':
+            return any(null(x) for x in e[1])
+        if k in ('opt', 'star', 'not', 'and'):
+            return True
+        if k == 'plus':
+            return null(e[1])
+        if k == 'type':
+            return null(e[2])
+        raise TranslateError(k)
+    changed = True
+    while changed:
+        changed = False
+        for r, e in rules.items():
+            if r not in N and null(e):
+                N.add(r)
+                changed = True
+
+    def left(e):
+        k = e[0]
+        if k in ('lit', 'class'):
+            return set()
+        if k == 'ref':
+            return {e[1]}
+        if k == 'seq':
+            out = set()
+            for _, x in e[1]:
+                out |= left(x)
+                if not null(x):
+                    break
+            return out
+        if k == 'choice':
+            return set().union(*[left(x) for x in e[1]]) if e[1] else set()
+        if k in ('opt', 'star', 'plus', 'not', 'and'):
+            return left(e[1])
+        if k == 'type':
+            return left(e[2])
+        raise TranslateError(k)
+    L = {r: left(e) for r, e in rules.items()}
+    rank = {r: 0 for r in rules}
+    for _ in range(len(rules) + 1):
+        changed = False
+        for r in rules:
+            v = max([rank.get(x, 0) + 1 for x in L[r]], default=0)
+            v = min(v, len(rules) + 1)
+            if v != rank[r]:
+                rank[r] = v
+                changed = True
+        if not changed:
+            break
+    return sorted(N), rank, len(rules) + 2
+
+
+def lean_certificate(prefix, rules):
+    N, rank, top = wf_certificate(rules)
+    return (f'/-- certificate for `peg_terminates`: nullable rules, ranks, bound (computed by the translator, checked by `wfG`) -/\n'
+            f'def {prefix}Nullable : List String := {lean_strs(N)}\n'
+            f'def {prefix}Ranks : List (String × Nat) := [' + ', '.join(f'({lean_str(r)}, {rank[r]})' for r in rules) + ']\n'
+            f'def {prefix}RankTop : Nat := {top}\n')
+
+
 def lean_grammar(defname, rules, order, doc):
     lines = [f'/-- {doc} -/', f'def {defname} : Grammar := [']
     lines.append(',\n'.join(f'  ({lean_str(r)}, {lean_expr(rules[r])})' for r in order))
